@@ -25,6 +25,10 @@ class HorizonExceeded(Exception):
     """The awaited operation did not complete within the virtual-time horizon."""
 
 
+class BudgetExceeded(Exception):
+    """Too many loop iterations for one awaited operation (harness budget; inconclusive)."""
+
+
 class _NullSelector(selectors.BaseSelector):
     """Selector that never blocks: the virtual loop has no real I/O."""
 
@@ -58,6 +62,9 @@ class VirtualLoop(asyncio.SelectorEventLoop):
         self.limit = None  # absolute virtual time at which run stops
         self.limit_hit = False
         self.errors: list[dict] = []
+        self.iterations = 0
+        self.max_iterations = 2_000_000
+        self.budget_hit = False
         self.set_exception_handler(self._on_error)
 
     def _on_error(self, loop, context):
@@ -79,6 +86,12 @@ class VirtualLoop(asyncio.SelectorEventLoop):
         return self._scheduled[0] if self._scheduled else None
 
     def _run_once(self):
+        self.iterations += 1
+        if self.iterations > self.max_iterations:
+            self.budget_hit = True
+            self._stopping = True
+            self._ready.clear()
+            return
         if not self._ready:
             t = self._next_timer()
             if t is None:
@@ -98,6 +111,8 @@ class VirtualLoop(asyncio.SelectorEventLoop):
     # -- harness API ---------------------------------------------------------
     def run_for(self, duration: float) -> None:
         """Run until stalled or until `duration` virtual seconds have passed."""
+        self.iterations = 0
+        self.budget_hit = False
         self.stalled = False
         self.limit_hit = False
         self.limit = self._vtime + duration
@@ -116,6 +131,8 @@ class VirtualLoop(asyncio.SelectorEventLoop):
         fut = asyncio.ensure_future(aw, loop=self)
         self.stalled = False
         self.limit_hit = False
+        self.iterations = 0
+        self.budget_hit = False
         self.limit = self._vtime + horizon
         fut.add_done_callback(lambda _f: self.stop())
         try:
@@ -125,6 +142,8 @@ class VirtualLoop(asyncio.SelectorEventLoop):
             self.limit = None
         if fut.done():
             return fut.result()
+        if self.budget_hit:
+            raise BudgetExceeded()
         if self.stalled:
             fut.cancel()
             self._drain_cancel()
